@@ -58,6 +58,12 @@ impl Distribution for Gamma {
     /// Uses the algorithm from Marsaglia and Tsang 2000. Applies the squeeze
     /// method and has nearly constant average time for `alpha >= 1`.
     fn sample(&self) -> f64 {
+        // the Marsaglia-Tsang method below requires a shape of at least 1: smaller shapes are
+        // boosted, Gamma(a) = Gamma(a + 1) * U^(1 / a) (section 6 of the paper)
+        if self.alpha < 1. {
+            let u = self.uniform_gen.sample();
+            return Gamma::new(self.alpha + 1., self.beta).sample() * u.powf(1. / self.alpha);
+        }
         let d = self.alpha - 1. / 3.;
         loop {
             let (x, v) = loop {
